@@ -15,6 +15,9 @@ pub fn bytes(s: &[u8]) -> Value {
 }
 
 pub fn unbytes(v: &Value) -> Vec<u8> {
+    if let Some(s) = v.as_str() {
+        return s.as_bytes().to_vec();
+    }
     v.as_array()
         .map(|a| a.iter().map(|x| x.as_u64().unwrap_or(0) as u8).collect())
         .unwrap_or_default()
